@@ -454,7 +454,7 @@ def all_cases(tier, seed):
             for rows in (1, 2, 3):
                 cs.append({"kind": "bernoulli", "cfg": cfg, "pattern": pname, "rows": rows})
     d = DC.DSUBJECTS["MADEMoG"]
-    for cfg in DC.enum_configs(d, k):
+    for cfg in DC.enum_configs(d, k + 1):  # one more deviation: the sampler is decided for (features=1, components=1) only
         if cfg["features"] > 2:
             continue
         for pname in d.patterns:
